@@ -67,17 +67,15 @@ def run(tier="quick", seed=1, replay=None):
             cov["states"] += r["distinct"]
             cov["transitions"] += r["generated"]
             vals = vf.printed_json(r["out"])
-            voc = [v for v in vals if isinstance(v, dict) and "pieces" in v]
+            voc = [v for v in vals if isinstance(v, dict) and "vocab" in v]
             if not voc:
                 raise vf.Inconclusive("vocabulary was not printed by MC_Tokenizer")
-            vocabs[fam] = voc[0]
+            vocabs[fam], unit_atoms[fam] = voc[0]["vocab"], voc[0]["units"]
             texts = [v for v in vals if isinstance(v, dict) and "us" in v]
             # longer texts (<= 7 units) by random walks through the same machine
             cfg = vf.write_cfg(wd, f"Sim_Tok_{fam}.cfg", {"V": "<- " + ("VBpe" if fam == "bpe" else "VSpm"), "Units": "<- " + units, "MaxUnits": 7}, SIM_BODY)
             sims, _ = vf.gen_simulate("MC_Tokenizer", cfg, wd, num=2500 if quick else 30000, depth=12, seed=seed)
             texts = vf.dedupe(texts + [v for v in sims if isinstance(v, dict) and "us" in v])
-            # unit atoms: printed once by a tiny evaluation of the constant
-            unit_atoms[fam] = None
             cases.append((fam, texts))
         # the pinned treatment of byte-token literals must be rejected by TLC (known finding below)
         r = gen(wd, "spm", "UnitsSpmLiteral", 2, timeout=900)
@@ -85,8 +83,8 @@ def run(tier="quick", seed=1, replay=None):
             raise vf.Inconclusive("Tokenizer.tla with the byte-token literal unit was not rejected by TLC")
         cov["design_variants_rejected"] = ["SPM text that is the literal form of a byte token (<0x41>) is looked up whole and decodes to the byte"]
         cov["exhaustive"] = True
-        UB = [[97], [98], [32], [126], [127], [60], [115], [62], [195, 169], [194, 173], [240, 159, 152, 128], [194, 160], [194, 161], [1], [10]]
-        US = [[97], [98], [32], [233], [128512], [60], [115], [62], [126], [10], [8364], [769], [60, 48, 120, 52, 49, 62]]
+        UB, US = unit_atoms["bpe"], unit_atoms["spm"]
+        LIT = [60, 48, 120, 52, 49, 62]     # "<0x41>", the literal form of a byte token
         recs_in = [dict(kind="vocab", vocab=vocabs["bpe"]), dict(kind="vocab", vocab=vocabs["spm"])]
         if replay:
             recs_in += [json.loads(l) for l in open(replay) if l.strip()]
@@ -104,9 +102,9 @@ def run(tier="quick", seed=1, replay=None):
                         recs_in.append(dict(kind="case", id=f"{fam}{n}p", fam=fam, pre="llama3", text=atoms, add=False))
                     if fam == "spm" and len(t["us"]) <= 2:
                         # the literal form of a byte token, alone and next to other units (pinned: known finding)
-                        for extra in ([13] + t["us"], t["us"] + [13]):
-                            a2 = [a for u in extra for a in US[u - 1]]
-                            recs_in.append(dict(kind="case", id=f"{fam}{n}l{extra[0]}", fam=fam, pre="whole", text=a2, add=False))
+                        ua = [a for u in t["us"] for a in US[u - 1]]
+                        for k, a2 in enumerate((LIT + ua, ua + LIT)):
+                            recs_in.append(dict(kind="case", id=f"{fam}{n}l{k}", fam=fam, pre="whole", text=a2, add=False))
             # the real llama 3.2 vocabulary and pre-tokenizer: every text of <= 2 (quick) / 3 units over 26 concrete units
             import itertools
             k = 2 if quick else 3
@@ -124,7 +122,7 @@ def run(tier="quick", seed=1, replay=None):
                     m += 1
                     recs_in.append(dict(kind="case", id=f"real{m}", fam="real", pre="llama3", text=list(s), specials=sp, add=False))
             recs_in += vf.load_witnesses(PROP)
-        cov["bounds"] = (f"toy vocabularies (256 byte tokens + 18 merged pieces + 1 control token each): every text of <= {maxu} units (and sampled texts of <= 7 units) over 15 (bpe) / 12 (spm) "
+        cov["bounds"] = (f"toy vocabularies (256 byte tokens + 18 merged pieces + 1 control token each): every text of <= {maxu} units (and sampled texts of <= 7 units) over 16 (bpe) / 13 (spm) "
                          "units incl. blank, ~, DEL, 0x01, soft hyphen, no-break space, 4-byte emoji, combining mark, special-token literal and its look-alikes; "
                          f"real llama 3.2 vocabulary: every text of <= {2 if quick else 3} units over 26 concrete units (scripts, digits, whitespace runs, contractions, special literals)")
         recs, v, _ = vf.replay_and_validate(wd, recs_in, "./model", "TestVFTokenizerReplay", ["model"], "Trace_Tokenizer", go_timeout=1800)
